@@ -13,6 +13,7 @@
 import VModel.StateRes
 import VProofs.StateResSpecUnique
 import VProofs.StateResSpecExample
+import VProofs.StateResSpecV1b
 namespace V.C10
 open V V.StateRes V.StateResSpec
 
@@ -222,5 +223,64 @@ theorem resolves_unique {algo : Nat} {sets : List (List Event)} {m auth : List E
     (hc : ∀ a b, Conflicted sets a → Conflicted sets b → a.isCreate = true → b.isCreate = true → a = b)
     {r₁ r₂ : SMap} (h1 : Resolves algo sets m auth rejected r₁) (h2 : Resolves algo sets m auth rejected r₂) : r₁ = r₂ :=
   Resolves.unique hU hc h1 h2
+
+/-! ## 7 (version 1, R1) -/
+
+/-- candidates are tried by depth ascending then SHA-1 descending: the model's sort produces such an order, and the
+    order is unique when no two candidates tie -/
+theorem v1Order_eq_spec (sha : ID → Bytes) (block : List Event) : IsV1Order sha block (sortV1 sha block) :=
+  sortV1_isV1Order sha block
+
+theorem v1Order_unique {sha : ID → Bytes} {block o₁ o₂ : List Event}
+    (hk : ∀ a ∈ block, ∀ b ∈ block, v1Key sha a = v1Key sha b → a = b) (h1 : IsV1Order sha block o₁)
+    (h2 : IsV1Order sha block o₂) : o₁ = o₂ := IsV1Order.unique hk h1 h2
+
+/-- **Version 1.** `ResolveStateConflicts` resolves the conflicted keys phase by phase as defined (R1): auth blocks in
+    the order create, power_levels, join_rules, third_party_invite, member (winners registered only after their phase),
+    then the rest; no hypotheses. -/
+theorem resolveV1_eq_spec (sha : ID → Bytes) (conflicted auth : List Event) :
+    V1Resolves sha conflicted auth (resolveV1 sha conflicted auth) :=
+  V.StateResSpec.resolveV1_eq_spec sha conflicted auth
+
+/-- … and the definition determines the result when no two conflicted events tie on (depth, SHA-1) -/
+theorem resolveV1_unique {sha : ID → Bytes} {conflicted auth r : List Event}
+    (hk : ∀ a ∈ conflicted, ∀ b ∈ conflicted, v1Key sha a = v1Key sha b → a = b) (h : V1Resolves sha conflicted auth r) :
+    r = resolveV1 sha conflicted auth := V.StateResSpec.resolveV1_unique hk h
+
+example : ∀ a ∈ [Example.eA, Example.eB], ∀ b ∈ [Example.eA, Example.eB],
+    v1Key (fun id => id) a = v1Key (fun id => id) b → a = b := by
+  intro a ha b hb h
+  have hid : a.eventID = b.eventID := congrArg V1Key.sha1 h
+  exact Example.id_inj (by simp at ha; rcases ha with rfl | rfl <;> simp)
+    (by simp at hb; rcases hb with rfl | rfl <;> simp) hid
+
+/-! ## 8 (continued). The entry point returns the defined state -/
+
+/-- `ResolveConflictsNew` on a registered room version returns the state the version's algorithm defines:
+    version 1 — the R2 split, `V1Resolves` for the conflicted keys, plus the unconflicted events;
+    algorithm 2 / 3 — a state that `Resolves`. -/
+theorem entrypoint_eq_spec (sha : ID → Bytes) (ver : Bytes) (sets : List (List Event)) (auth : List Event) (rej : List ID)
+    (row : VGen.VersionRow) (h : versionRow? ver = some row) (hwf : WF sets auth) (hr : Ranked (sets.flatten ++ auth)) :
+    (row.stateResAlgorithm = 1 →
+      ∃ ids, resolveConflictsNew sha ver sets auth rej = some ids ∧ V1Result sha sets auth ids) ∧
+    (row.stateResAlgorithm = 2 ∨ row.stateResAlgorithm = 3 →
+      ∃ ids result, resolveConflictsNew sha ver sets auth rej = some ids ∧
+        Resolves row.stateResAlgorithm sets (eventMapFromEvents auth) auth rej result ∧
+        ∀ id, id ∈ ids ↔ ∃ k e, result k = some e ∧ e.eventID = id) := by
+  constructor
+  · intro h1
+    exact resolveConflictsNew_v1 sha ver sets auth rej row h h1
+      (fun a b ha hb => hwf.ids a b (List.mem_append_left _ ha) (List.mem_append_left _ hb))
+  · intro h23
+    rw [entrypoint_selects sha ver sets auth rej row h]
+    rcases h23 with h2 | h3
+    · obtain ⟨result, hres, hids⟩ := resolveV2_eq_spec sets auth rej hwf hr
+      refine ⟨(resolveV2New 2 sets auth rej).result, result, ?_, ?_, hids⟩
+      · simp [h2]
+      · rw [h2]; exact hres
+    · obtain ⟨result, hres, hids⟩ := resolveV2_1_eq_spec sets auth rej hwf hr
+      refine ⟨(resolveV2New 3 sets auth rej).result, result, ?_, ?_, hids⟩
+      · simp [h3]
+      · rw [h3]; exact hres
 
 end V.C10
